@@ -131,16 +131,17 @@ def t_zonal(max_degree=None, degrees=None):
     return b
 
 
-def t_zonal_lap(max_degree):
+def t_zonal_lap(max_degree=None, degrees=None):
     def b(I):
-        op = I.instantiate('ZonalSphericalHarmonicsLaplacian', max_degree=max_degree)
-        return I.call_method(op, '__call__', Rcols(max_degree + 1), V('r'), V('theta'), V('phi'))
+        op = I.instantiate('ZonalSphericalHarmonicsLaplacian', max_degree=max_degree, degrees=degrees)
+        n = len(degrees) if degrees is not None else max_degree + 1
+        return I.call_method(op, '__call__', Rcols(n), V('r'), V('theta'), V('phi'))
     return b
 
 
-def t_zonal_expansion(max_degree):
+def t_zonal_expansion(max_degree=None, degrees=None):
     def b(I):
-        z = I.instantiate('ZonalSphericalHarmonics', max_degree=max_degree)
+        z = I.instantiate('ZonalSphericalHarmonics', max_degree=max_degree, degrees=degrees)
         Y = I.call_method(z, '__call__', V('theta'), V('phi'))
         R = Rcols(len(Y.cols))
         u = ('mul', R.cols[0], Y.cols[0])
@@ -207,6 +208,10 @@ TARGETS += [Target(f'zonal_{d}', F, t_zonal(max_degree=d), leaves=['theta', 'phi
 TARGETS += [Target('zonal_degrees_7_2', F, t_zonal(degrees=[7, 2]), leaves=['theta', 'phi'], pars=['PI'], **K17)]
 TARGETS += [Target(f'zonal_lap_{d}', F, t_zonal_lap(d), leaves=RTP, pars=['PI'], funs=[f'R{k}' for k in range(d + 1)], **K17) for d in (0, 2, 4)]
 TARGETS += [Target(f'zonal_expansion_{d}', F, t_zonal_expansion(d), leaves=RTP, pars=['PI'], funs=[f'R{k}' for k in range(d + 1)], **K17) for d in (0, 2, 4)]
+TARGETS += [Target('zonal_lap_deg_3_1', F, t_zonal_lap(degrees=[3, 1]), leaves=RTP, pars=['PI'], funs=['R0', 'R1'], **K17),
+            Target('zonal_expansion_deg_3_1', F, t_zonal_expansion(degrees=[3, 1]), leaves=RTP, pars=['PI'], funs=['R0', 'R1'], **K17),
+            Target('zonal_lap_deg_2', F, t_zonal_lap(degrees=[2]), leaves=RTP, pars=['PI'], funs=['R0'], **K17),
+            Target('zonal_expansion_deg_2', F, t_zonal_expansion(degrees=[2]), leaves=RTP, pars=['PI'], funs=['R0'], **K17)]
 TARGETS += [Target(f'fourier_{d}', F, t_fourier(d), leaves=['phi'], **K17) for d in (0, 1, 3, 12)]
 TARGETS += [Target(f'fourier_lap_{d}', F, t_fourier_lap(d), leaves=['r', 'phi', 'z'], funs=[f'R{k}' for k in range(2 * d + 1)], **K17) for d in (0, 1, 3)]
 TARGETS += [Target(f'fourier_expansion_{d}', F, t_fourier_expansion(d), leaves=['r', 'phi', 'z'], funs=[f'R{k}' for k in range(2 * d + 1)], **K17) for d in (0, 1, 3)]
